@@ -78,6 +78,17 @@ def main(chk):
   cfgs = measlib.configs(chk.tier)
   design(chk, cfgs, 5)
   emit_and_replay(chk, cfgs, 3 if chk.tier == 'quick' else 4, 1 if chk.tier == 'quick' else 2, OWNED)
+  # "(plus conditional validators whose diagnosis result existed when the phase started)" across executions of one
+  # Test object: the diagnosis exists in the first execution only
+  from checks import c11
+  with mp.Pool(1) as pool:
+    sigs = pool.apply(c11.repeated_runs, (0,))
+  chk.traces += 1
+  chk.nontrivial += 1
+  for sig in sigs:
+    if 'conditional validator' in sig:
+      chk.violation('a conditional validator whose diagnosis result did not exist when the phase started decided the '
+                    'measurement (armed by an earlier execution)', dict(scenario='repeated executions', detail=sig))
   chk.cov['rule'] = ('every history of <= MaxOps body statements (set / override / per-coordinate set / rejected '
                      'assignments / reads) x validator lists x transforms, enumerated by TLC; non-trivial = at '
                      'least two statements before the phase ends')
@@ -93,6 +104,14 @@ def replay(path):
     sc = json.load(fh)['scenario']
   import sys
   sys.argv = sys.argv[:1]
+  if sc.get('scenario') == 'repeated executions':
+    from checks import c11
+    sigs = [s for s in c11.repeated_runs(0) if 'conditional validator' in s]
+    if sigs:
+      print('VIOLATION property=C06 replay=%s\n  what: %s' % (path, sigs[0]))
+      return 1
+    print('replay: conditional validators apply only in the execution that has their diagnosis')
+    return 0
   bad = [b for b in measlib.replay_one(sc) if b[0] in OWNED]
   for cat, msg in bad:
     print('VIOLATION property=C06 replay=%s\n  what: %s' % (path, msg))
